@@ -87,6 +87,9 @@ class ClassInfo:
         return f"<class {self.module.name}.{self.name}>"
 
 
+_NOVAL = object()
+
+
 class SObj:
     """Heap object of a repository class (or an ad-hoc record when cls is None)."""
 
@@ -994,13 +997,52 @@ class Interp:
                 continue
 
     # -- loops with invariants -------------------------------------------------------------
+    def _havoc_checked(self, s, env, spec, k, phase, name):
+        """Run the loop contract's havoc and check its frame mechanically: every local name the loop body (or the loop
+        target) assigns must have been given a new value or removed by the havoc - otherwise the state after an arbitrary
+        number of iterations would silently keep a pre-loop value.  (Object fields and containers are the contract's
+        responsibility and are covered by its invariant.)"""
+        assigned = set()
+        for node in ast.walk(s):
+            if isinstance(node, ast.Name) and isinstance(node.ctx, (ast.Store, ast.Del)):
+                assigned.add(node.id)
+        bound = {nm for nm in assigned if nm in env.vars}
+        touched = set()
+
+        class _Tracking(dict):
+            def __setitem__(d, key, value):
+                touched.add(key)
+                dict.__setitem__(d, key, value)
+
+            def __delitem__(d, key):
+                touched.add(key)
+                dict.__delitem__(d, key)
+
+            def pop(d, key, *a):
+                touched.add(key)
+                return dict.pop(d, key, *a)
+        plain = env.vars
+        env.vars = _Tracking(plain)
+        try:
+            spec.havoc(self, env, k, phase)
+        finally:
+            tracked = dict(env.vars)
+            plain.clear()
+            plain.update(tracked)
+            env.vars = plain
+        keep = set(getattr(spec, 'unchanged', ()))
+        stale = sorted(nm for nm in bound if nm not in keep and nm not in touched
+                       and not (isinstance(s, ast.For) and nm in {t.id for t in ast.walk(s.target) if isinstance(t, ast.Name)} and phase == 'pres'))
+        if stale:
+            raise Unsupported(f"{name}: loop contract leaves {stale} (assigned in the loop body) at their pre-loop values")
+
     def for_with_invariant(self, s, env, it, spec, ordinal):
         name = f"{env.func_key}/loop#{ordinal}"
         n = seq_length(it)
         which = self.choose(2, name)
         if which == 0:
             self.vc.ensure(f"{name}/inv-init", spec.inv(self, env, 0), kind='inv-init')
-            spec.havoc(self, env, n, 'exit')
+            self._havoc_checked(s, env, spec, n, 'exit', name)
             self.vc.assume(Sym.lift(n) >= 0 if not is_conc(n) else n >= 0)
             self.vc.assume(spec.inv(self, env, n))
             self.exec_block(s.orelse, env)
@@ -1008,7 +1050,7 @@ class Interp:
         k = CTX.fresh('k', 'int')
         self.vc.assume(And(k >= 0, k < n))
         self.vc.instantiate(k)
-        spec.havoc(self, env, k, 'pres')
+        self._havoc_checked(s, env, spec, k, 'pres', name)
         self.vc.assume(spec.inv(self, env, k))
         self.assign(s.target, seq_at(it, k), env)
         try:
@@ -1033,14 +1075,14 @@ class Interp:
             self.vc.ensure(f"{name}/inv-init", spec.inv(self, env, 0), kind='inv-init')
             k = CTX.fresh('kexit', 'int')
             self.vc.assume(k >= 0)
-            spec.havoc(self, env, k, 'exit')
+            self._havoc_checked(s, env, spec, k, 'exit', name)
             self.vc.assume(spec.inv(self, env, k))
             c = self.truth(self.eval(s.test, env))
             self.vc.assume(Not(c))
             return
         k = CTX.fresh('k', 'int')
         self.vc.assume(k >= 0)
-        spec.havoc(self, env, k, 'pres')
+        self._havoc_checked(s, env, spec, k, 'pres', name)
         self.vc.assume(spec.inv(self, env, k))
         var0 = spec.variant(self, env) if getattr(spec, 'variant', None) else None     # before the test (it may have effects)
         c = self.truth(self.eval(s.test, env))
@@ -1092,7 +1134,8 @@ class Interp:
                 raise Unsupported("iteration over long concrete array")
             return [arr_getitem(it, i) for i in range(n)]
         if isinstance(it, GeneratorValue):
-            return it.collect()
+            r = it.collect()
+            return r if isinstance(r, list) else None
         if isinstance(it, SObj):
             # iteration protocol via __iter__ or the sequence protocol (__len__/__getitem__)
             ms = self.find_method(it.cls, '__iter__') if it.cls else None
@@ -1543,7 +1586,10 @@ class Interp:
         sink = getattr(env, 'yield_sink', None)
         if sink is None:
             raise Unsupported("yield outside collected generator")
-        sink.append(v)
+        if isinstance(sink, SList):
+            sink.append(self, v)
+        else:
+            sink.append(v)
         return None
 
     def ev_Starred(self, n, env):
@@ -1766,7 +1812,15 @@ class GeneratorValue:
                 self.interp.exec_block(self.clo.node.body, self.env)
             except _Return:
                 pass
+            self.items = self.env.yield_sink        # a loop contract may have replaced the sink by a symbolic-length list
         return self.items
+
+    @property
+    def length(self):
+        return seq_length(self.collect())
+
+    def at(self, k):
+        return seq_at(self.collect(), k)
 
 
 def subst_value(v, ksym, j, memo):
